@@ -338,7 +338,9 @@ pub fn main(args: &Args) {
     let mut r = Rng::new(args.num("seed", 1));
     let mut cr = Rng::new(args.num("seed", 1) ^ 0x99);
     let cases: Vec<Value> = if args.has("replay") {
-        read_cases().into_iter().filter(|c| c.get("items").is_some() || c.get("text").is_some() || (c["ev"] == "reset" && c.get("chunks").is_some())).collect()
+        read_cases().into_iter().filter(|c| (c.get("ev").is_none() && (c.get("items").is_some() || c.get("text").is_some()))
+                                            || (c["ev"] == "reset" && c.get("chunks").is_some())
+                                            || (c["ev"] == "case" && (c.get("items").is_some() || c.get("text").is_some()))).collect()
     } else if mode == "sched" {
         let shard = args.num("shard", 0);
         let shards = args.num("shards", 1).max(1);
